@@ -94,15 +94,15 @@ func hwExcluded(op string) string {
 }
 
 type hwInst struct {
-	I    *ir.Instruction
-	Line string
-	Sig  string
-	Base, Index      int // GP numbers of the memory operand's registers, -1 when absent
-	MemOut           bool
-	MemSize          int
-	VIndex           int // Z number of a vector index register (gather/scatter), -1 otherwise
-	In   [][2]int // (word index, byte-class mask for GP / 0xff.. for others) declared inputs
-	Out  [][2]int
+	I           *ir.Instruction
+	Line        string
+	Sig         string
+	Base, Index int // GP numbers of the memory operand's registers, -1 when absent
+	MemOut      bool
+	MemSize     int
+	VIndex      int      // Z number of a vector index register (gather/scatter), -1 otherwise
+	In          [][2]int // (word index, byte-class mask for GP / 0xff.. for others) declared inputs
+	Out         [][2]int
 }
 
 // location of a physical register in the state: word index, number of words, and for GP the byte mask
